@@ -233,6 +233,15 @@ def replay_addtol(S, start, op, k, report, extra, mags):
                 d2[raised] = d2.get(raised, 0) + 1
 
 
+def flat_rats(b, depth):
+    if depth == 0:
+        return [b]
+    out = []
+    for x in b:
+        out.extend(flat_rats(x, depth - 1))
+    return out
+
+
 def replay_histops(ctx, rec, k, report, extra):
     import lena.structures as S
     import lena.flow as F
@@ -260,6 +269,10 @@ def replay_histops(ctx, rec, k, report, extra):
     def exp(p, mul):
         x = fr(p)
         return x if (x is None or mul == 1) else float(x) * mul
+    def all_dyadic(h):
+        return all(p[1] & (p[1] - 1) == 0 for p in flat_rats(h["bins"], dim))
+    # exact_vals: every content so far is a dyadic number, i.e. the floats of the code are the rationals of the model
+    exact_vals = all_dyadic(rec["start"])
     for j, op in enumerate(rec["ops"]):
         name = op["op"]
         want = op["a"]
@@ -280,6 +293,10 @@ def replay_histops(ctx, rec, k, report, extra):
                         raised = exc_name(exc)
                     if op["ok"] and raised:
                         report("histogram.scale:%s:raised:%s" % (where, raised), detail)
+                        return
+                    if not op["ok"] and raised is None and not exact_vals:
+                        # the integral is an exact zero in the model, but the contents of the code carry rounding
+                        # errors of earlier operations: whether the sum cancels exactly cannot be demanded
                         return
                     if not op["ok"] and raised != op["exc"]:
                         report("histogram.scale:zero-scale:%s:%s" % (where, raised or "no-exception"), detail)
@@ -336,6 +353,7 @@ def replay_histops(ctx, rec, k, report, extra):
         except Exception as exc:   # noqa
             report("histogram.%s:%s:raised:%s" % (name, where, exc_name(exc)), dict(detail, exception=repr(exc)))
             return
+        exact_vals = exact_vals and all_dyadic(want)
         # the histogram after the operation
         if hist.edges != edges0:
             report("histogram.%s:edges-changed:%s" % (name, where), dict(detail, observed=repr(hist.edges)))
